@@ -204,6 +204,7 @@ func (k *kase) sharedValues() string {
 	for _, s := range spellings {
 		ob := newBuilder(r, sep)
 		ob.noInlineCfg = true
+		ob.noInline = sameName > 0 // an inline map can not hold one name twice
 		src := ob.node(s, carrier, true)
 		k.res.Eval(ob.evals)
 		if ob.err != nil {
